@@ -21,7 +21,8 @@ let parse_avar s =
   if s = "-" then None else
   Some (List.filter_map (fun m -> if m = "" then None else Some (parse_map m)) (split_on ' ' s))
 
-let parse_coords cs = if cs = "-" || cs = "" then [] else List.map z_of_string (split_on ',' cs)
+let named cs = if String.length cs > 0 && cs.[0] = '@' then Some (z_of_string (String.sub cs 1 (String.length cs - 1))) else None
+let parse_coords cs = if cs = "-" || cs = "" || named cs <> None then [] else List.map z_of_string (split_on ',' cs)
 
 let parse_shape s = match List.map z_of_string (split_on ',' s) with
   | [a; b; c; d; e; f; g] ->
@@ -37,11 +38,14 @@ let shape_ok sh =
 
 type case =
   | Tuple of string * shape * (((z * z) * z) * z) list * (z * z) list list option * z list   (* N / F / I *)
+  | Named of string * shape * (((z * z) * z) * z) list * (z * z) list list option * z         (* F / I with @k *)
   | Owned of shape * (((z * z) * z) * z) list * z
   | Seg of (z * z) list * z
 
 let parse_case input = match split_on '|' input with
   | ["N"; ax; av; cs] -> Tuple ("N", canonical, parse_axes4 ax, parse_avar av, parse_coords cs)
+  | [("F" | "I") as k; sh; ax; av; cs] when named cs <> None ->
+    (match named cs with Some i -> Named (k, parse_shape sh, parse_axes4 ax, parse_avar av, i) | None -> failwith "named")
   | [("F" | "I") as k; sh; ax; av; cs] -> Tuple (k, parse_shape sh, parse_axes4 ax, parse_avar av, parse_coords cs)
   | ["O"; sh; ax; k] -> Owned (parse_shape sh, parse_axes4 ax, z_of_string k)
   | ["S"; m; x] -> Seg (parse_map m, z_of_string x)
@@ -56,6 +60,7 @@ let run (input : string) : string =
     if direct = bytes then direct else "model-inconsistent:" ^ direct ^ "/" ^ bytes
   | Tuple ("I", sh, axes, avar, coords) -> outcome_to_string zlist_to_string (case_instance Release sh axes coords avar)
   | Tuple (_, sh, axes, avar, coords) -> outcome_to_string zlist_to_string (case_normalize Release sh axes coords avar)
+  | Named (_, sh, axes, avar, k) -> outcome_to_string zlist_to_string (case_named Release sh axes k avar)
   | Owned (sh, axes, k) -> outcome_to_string z_to_string (case_owned_tuple Release sh axes k)
   | Seg (m, x) -> "ok:" ^ z_to_string (avar_normalize m x)
 
@@ -122,6 +127,28 @@ let avar_bad (axes : ((z * z) * z) list) (maps : (z * z) list list) (coords : z 
 
 let ok_list (s : string) : z list = zlist_of_string (String.sub s 3 (String.length s - 3))
 
+(* a user tuple `coords` against a table of SHAPE `sh` whose written records are `axes4` *)
+let judge_tuple sh axes4 avar coords (impl : string) (model : string) : verdict =
+    let axes = List.map triple axes4 in
+    let declared = List.length axes + z_to_int sh.sh_dcount in
+    if List.length coords <> declared then
+      (if starts_with "err:" impl then Mismatch "different error" else Violation ("len", "tuple of the wrong length accepted"))
+    else if starts_with "ok:" impl then begin
+      let iv = ok_list impl in
+      if List.exists (fun v -> let i = z_to_int v in i < -16384 || i > 16384) iv then
+        Violation ("range", "component outside [-1, 1]")
+      else if List.length iv <> declared then Violation ("len", "result tuple has the wrong length")
+      else if not (shape_ok sh) then Mismatch "values differ from the model (malformed table)"
+      else if avar = None && plain_bad axes coords iv then
+        Violation ("accuracy", "component is not within one 2.14 unit of the exact value, or an end point is not exactly -1/0/+1")
+      else if (match avar with Some maps -> avar_bad axes maps coords iv | None -> false) then
+        Violation ("avar-accuracy", "component is not within the slope-scaled bound of the exact avar interpolation")
+      else if starts_with "ok:" model then Mismatch "values differ from the model"
+      else Mismatch "result kinds differ"
+    end
+    else Mismatch "result kinds differ"
+
+
 (* the property on the implementation's output: never a panic; a tuple whose length is not the table's
    axisCount is rejected, at FvarTable::normalize, variations::instance and FvarTable::owned_tuple alike;
    every component within [-16384, 16384]; on a table the format allows (any axesArrayOffset >= 16, any
@@ -148,31 +175,24 @@ let judge (input : string) (impl : string) (model : string) : verdict =
     let declared = List.length axes + z_to_int sh.sh_dcount in
     if impl = "ok:1" && z_to_int k <> declared then Violation ("len", "owned_tuple accepted a tuple of the wrong length")
     else Mismatch "owned_tuple differs from the model"
-  | Tuple (_, sh, axes4, avar, coords) ->
-    let axes = List.map triple axes4 in
-    let declared = List.length axes + z_to_int sh.sh_dcount in
-    if List.length coords <> declared then
-      (if starts_with "err:" impl then Mismatch "different error" else Violation ("len", "tuple of the wrong length accepted"))
-    else if starts_with "ok:" impl then begin
-      let iv = ok_list impl in
-      if List.exists (fun v -> let i = z_to_int v in i < -16384 || i > 16384) iv then
-        Violation ("range", "component outside [-1, 1]")
-      else if List.length iv <> declared then Violation ("len", "result tuple has the wrong length")
-      else if not (shape_ok sh) then Mismatch "values differ from the model (malformed table)"
-      else if avar = None && plain_bad axes coords iv then
-        Violation ("accuracy", "component is not within one 2.14 unit of the exact value, or an end point is not exactly -1/0/+1")
-      else if (match avar with Some maps -> avar_bad axes maps coords iv | None -> false) then
-        Violation ("avar-accuracy", "component is not within the slope-scaled bound of the exact avar interpolation")
-      else if starts_with "ok:" model then Mismatch "values differ from the model"
-      else Mismatch "result kinds differ"
-    end
-    else Mismatch "result kinds differ"
+  | Tuple (_, sh, axes4, avar, coords) -> judge_tuple sh axes4 avar coords impl model
+  | Named (_, sh, axes4, avar, k) ->
+    (* the coordinates of named instance k are known when the layout is legal and the record holds them all *)
+    let n = List.length axes4 and k = z_to_int k in
+    if shape_ok sh && k >= 0 && k < z_to_int sh.sh_icnt && z_to_int sh.sh_isz >= 4 + 4 * n then
+      judge_tuple sh axes4 avar (inst_coords (z_of_int k) Z0 axes4) impl model
+    else if starts_with "ok:" impl && List.exists (fun v -> let i = z_to_int v in i < -16384 || i > 16384) (ok_list impl) then
+      Violation ("range", "component outside [-1, 1]")
+    else Mismatch "named instance differs from the model"
 
 let tag (input : string) (out : string) : string =
   let res = String.sub out 0 (min 2 (String.length out)) in
   match parse_case input with
   | Seg _ -> "seg-" ^ res
   | Owned (sh, _, _) -> "owned-" ^ (if shape_ok sh then "legal-" else "malformed-") ^ res
+  | Named (k, sh, axes, avar, _) ->
+    (if k = "F" then "fvar-" else "instance-") ^ "named-" ^ (if shape_ok sh then "legal-" else "malformed-")
+    ^ (if avar = None then "plain" else "avar") ^ "-" ^ string_of_int (min 3 (List.length axes)) ^ "ax-" ^ res
   | Tuple (k, sh, axes, avar, _) ->
     (match k with "N" -> "" | "F" -> "fvar-" | _ -> "instance-")
     ^ (if k = "N" then "" else if not (shape_ok sh) then "malformed-"
